@@ -147,6 +147,10 @@ def check_case(attrs, D, cols=COLSETS[0], extra=(), keep_order=False, mode="dict
             given[k] = list(v)
     else:
         given = json.dumps(attrs) if attrs else {}
+        if attrs and json.loads(given) != pristine:
+            # JSON text cannot carry this mapping (an unpaired high surrogate directly followed by an
+            # unpaired low one reads back as one code point): hand the dict over instead
+            mode, given = "dict", {k: list(v) for k, v in attrs.items()}
     case = describe(pristine, D, cols, extra, keep_order, mode)
     try:
         f = Feature(*cols, attributes=given, extra=list(extra), dialect=D1, keep_order=keep_order)
@@ -718,7 +722,7 @@ def unit_parse_supplied(U):
             total_split(s, D, Dc, fails, counter)
     # one more letter for the dictionaries whose parse differs (the reader ignores 'repeated keys')
     if U.thorough:
-        sub = [(D, Dc) for D, Dc in zip(main, copies) if not D["repeated keys"] and not (D["leading semicolon"] and D["fmt"] == "gff3")]
+        sub = [(D, Dc) for D, Dc in zip(main, copies) if not D["repeated keys"] and not D["leading semicolon"]]
         for s in all_strings(STRUCT, 6, 6):
             for D, Dc in sub:
                 total_split(s, D, Dc, fails, counter)
@@ -747,7 +751,7 @@ def unit_parse_supplied(U):
     U.bounded_result("C08.bounded.parse_total_supplied",
                      "_split_keyvals(s, D) / feature_from_line(eight columns + s, dialect=D) with a supplied dialect dictionary D: no exception, keys are str, values are lists of str, D is not modified",
                      "%d dialect dictionaries (fmt x keyval separator x quoting x 3 field separators x trailing x repeated x leading semicolon = 192, %d with unusual separators, %d inferred by the library) x every string of length <= %d over {; = space \" , %% a 2 5} (one letter less for the unusual ones); length %d under %s; length <= %d through feature_from_line under the 192; %d random strings of length 6-40"
-                     % (len(every), len(odd), len(inferred), L, L + 1, "the %d dictionaries with distinct reader behaviour" % len(sub) if U.thorough else "2 rotating dictionaries per string", Lline, N),
+                     % (len(every), len(odd), len(inferred), L, L + 1, "the %d dictionaries without leading semicolon that the reader can tell apart" % len(sub) if U.thorough else "2 rotating dictionaries per string", Lline, N),
                      counter[0], fails, exhaustive=False, sample={"failing_cases": counter[1]})
 
 
